@@ -974,7 +974,8 @@ def uci_scenarios(work, vh, rep, props, seed, tier, want_real=True):
         name, args = job
         trace = work.path(name + ".ndjson")
         evlog = work.path(name + ".evlog")
-        p = vlib.run_harness(work, vh, ["ucisched"] + args + ["-out", trace, "-evlog", evlog], check=False, timeout=3000)
+        # (a crash of a scenario process is judged below from the events logged up to it, not wholesale)
+        p = vlib.run_harness(work, vh, ["ucisched"] + args + ["-out", trace, "-evlog", evlog], check=False, timeout=3000, crash_verdict=False)
         crash = None
         if p.returncode != 0:
             txt = (p.stdout + p.stderr)
